@@ -748,6 +748,30 @@ func ruleS3Fields(r *core.Reporter) {
 					cl, isC := a.Y.(*ssa.Call)
 					return okc && z == 0 && isC && ir.CallName(cl.Common()) == "builtin.len" && strings.HasSuffix(ir.Path(cl.Call.Args[0]), ".Contents")
 				})
+				if !g {
+					// the fall-through of `if len(Contents) == 0 { return }`, or `len(Contents) >= 1`
+					isLenContents := func(v ssa.Value) bool {
+						cl, isC := v.(*ssa.Call)
+						return isC && ir.CallName(cl.Common()) == "builtin.len" && strings.HasSuffix(ir.Path(cl.Call.Args[0]), ".Contents")
+					}
+					_, g = ir.GuardedBy(fn, entry, c, false, func(a ir.Atom) bool {
+						if a.V != nil || a.Op != token.EQL {
+							return false
+						}
+						zx, okx := ir.ConstInt(a.X)
+						zy, oky := ir.ConstInt(a.Y)
+						return (okx && zx == 0 && isLenContents(a.Y)) || (oky && zy == 0 && isLenContents(a.X))
+					})
+					if !g {
+						_, g = ir.GuardedBy(fn, entry, c, true, func(a ir.Atom) bool {
+							if a.V != nil || a.Op != token.LEQ {
+								return false
+							}
+							o, okx := ir.ConstInt(a.X)
+							return okx && o == 1 && isLenContents(a.Y)
+						})
+					}
+				}
 				only := onlyGuardFrom(fn, entry, inRegion, c, "Contents")
 				if okVal && g && only {
 					r.Held(nm+"/next-page", 1, "marker = last key of the page, emitted whenever the page is non-empty")
